@@ -183,7 +183,7 @@ Section Handler.
     end.
 
   (* select { case inFlightSem <- struct{}{}: ... default: 503 }; no semaphore when the limit is <= 0 *)
-  Definition admit (limit inflight : Z) : bool := negb ((0 <? limit) && (limit <=? inflight)).
+  Definition sem_admits (limit inflight : Z) : bool := negb ((0 <? limit) && (limit <=? inflight)).
 
   Definition out503 : hout := mkOut 503 None None true CId [] false 0 0 0 0 false.
   (* httpError after a failed gather: done() is deferred, the gathering counter was incremented *)
@@ -191,7 +191,7 @@ Section Handler.
   Definition out_gather_panic : hout := mkOut 0 None None false CId [] false 1 0 1 1 true.
 
   Definition handle (i : hin) : hout :=
-    if negb (admit (h_limit i) (h_inflight i)) then out503 else
+    if negb (sem_admits (h_limit i) (h_inflight i)) then out503 else
     let g := if h_gerr i then 1 else 0 in
     let stop : option hout :=
       if h_gerr i then
@@ -290,7 +290,7 @@ Definition sem_step (limit : Z) (m : sem) (e : ev) : sem :=
       match tlookup t (m_threads m) with
       | Some _ => m
       | None =>
-          if admit limit (m_count m) then
+          if sem_admits limit (m_count m) then
             let c := if 0 <? limit then m_count m + 1 else m_count m in
             let m' := mkSem ((t, TRunning) :: m_threads m) c (m_gathers m + 1) (m_dones m) (m_503 m) (m_peak m) in
             mkSem (m_threads m') c (m_gathers m') (m_dones m') (m_503 m') (Z.max (m_peak m) (running m'))
@@ -315,7 +315,7 @@ Fixpoint sem_outcomes (limit : Z) (m : sem) (es : list ev) : list Z :=
       (match e with
        | Start t => match tlookup t (m_threads m) with
                     | Some _ => 0
-                    | None => if admit limit (m_count m) then 1 else 2
+                    | None => if sem_admits limit (m_count m) then 1 else 2
                     end
        | End _ _ => 0
        end) :: sem_outcomes limit m' r
